@@ -525,7 +525,7 @@ pub fn run(tier: &str, mode: Mode) -> i32 {
     {
         let heads = ["TT-88", "AQs-A9s", "KJo-K9o", "99+", "A9s+", "44", "JTs", "72o", "AsKs", "KsAs"];
         let weights = ["0", "1", "0.5", "1.0", "0.25"];
-        let junk: Vec<&str> = ALPHA15.iter().cloned().chain(["x", "e", "E", "_", "/", ";", "'", "\"", "\n", "\r"].into_iter()).collect();
+        let junk: Vec<&str> = ALPHA15.iter().cloned().chain(["x", "e", "E", "_", "/", ";", "'", "\"", "\n", "\r", "5", "9", "\u{663}", "\u{ff13}", "\u{969}", "\u{b2}"].into_iter()).collect();
         let mut strings: Vec<String> = vec![];
         for h in heads {
             for w in weights {
@@ -539,6 +539,18 @@ pub fn run(tier: &str, mode: Mode) -> i32 {
                     }
                 }
                 strings.push(format!("{}:{}:{}", h, w, w));
+            }
+            // every weight text of up to four characters over {0 1 5 . - e} (and five over {0 1 5 .})
+            // (one head per token regex is enough for this one)
+            for len in 1..=5usize {
+                if ["KJo-K9o", "72o", "KsAs"].contains(&h) {
+                    break;
+                }
+                let alpha: &[&str] = if len <= 4 { &["0", "1", "5", ".", "-", "e"] } else { &["0", "1", "5", "."] };
+                let total = (alpha.len() as u64).pow(len as u32);
+                for i in 0..total {
+                    strings.push(format!("{}:{}", h, nth_string(alpha, len, i)));
+                }
             }
             for odd in ["-0.5", "+0.5", "-1", "-0", "-0.0", "+1", "1e0", "1e-1", "5e-1", "1E0", ".5", "0.", "1.", "inf", "-inf", "nan", "NaN", "infinity", "0x1", "1_0", "00", "01", "00.5", "1.5", "2", "10", "0.5f", "0,5", "½", "٠", "０"] {
                 strings.push(format!("{}:{}", h, odd));
@@ -567,7 +579,7 @@ pub fn run(tier: &str, mode: Mode) -> i32 {
                 push_viol(&mut rep, "weight-junk", &s, &stage, &what, mode);
             }
         }
-        rep.sub("weight-junk", "ten token heads x five weights x one junk symbol (alphabet plus x e E _ / ; quotes CR LF) after, before and inside the weight, before the colon and before the head; doubled weights; and 31 weight spellings a float parser accepts but the notation does not (signs, exponents, .5, inf, nan, 1.5, unicode digits); distinct_nontrivial = strings accepted as a token", st_all.strings, st_all.parsed_tokens, false, json!({}));
+        rep.sub("weight-junk", "ten token heads x five weights x one junk symbol (alphabet plus x e E _ / ; quotes CR LF) after, before and inside the weight, before the colon and before the head; doubled weights; every weight text of <= 4 characters over {0,1,5,.,-,e} and of 5 over {0,1,5,.}; and 31 weight spellings a float parser accepts but the notation does not (signs, exponents, .5, inf, nan, 1.5, unicode digits); distinct_nontrivial = strings accepted as a token", st_all.strings, st_all.parsed_tokens, false, json!({}));
     }
 
     // (c4) longer strings with a multi-byte character straddling every small byte offset
